@@ -4,7 +4,7 @@
    property itself) is modelled over an explicit backing array in Json/AppendModel.v and proved here.
    encode_bytes is tied to the code by correspondence on (len, cap, payload) triples; the whole property is
    decided differentially by the harness for every value, prefix length and spare capacity class. *)
-From Verif Require Import Base.GoInt Json.AppendModel.
+From Verif Require Import Base.GoInt Json.AppendModel Json.AppendCorollaries.
 
 (* encodeBytes, EVERY length and capacity: data = prefix ++ quoted base64; the prefix cells of the destination array
    are never written (array reused with them intact, or a fresh array); every index used is in range *)
@@ -24,3 +24,24 @@ Proof. exact AppendModel.requote_data. Qed.
 Theorem rollback_data : forall b start, (start <= slen b)%nat -> wf_slice b ->
   gdata (rollback_to b start) = firstn start (gdata b) /\ cells (rollback_to b start) = cells b.
 Proof. exact AppendModel.rollback_data. Qed.
+
+(* the property as worded, for encodeBytes: Append(b, v) = b ++ Append(nil, v) for EVERY destination length and capacity *)
+Theorem encode_bytes_oblivious : forall b body, wf_slice b ->
+  gdata (fst (encode_bytes b body)) = gdata b ++ gdata (fst (encode_bytes gnil body)).
+Proof. exact AppendCorollaries.encode_bytes_oblivious. Qed.
+
+(* destinations with equal data give equal data: capacity and the bytes beyond len(b) are irrelevant *)
+Theorem encode_bytes_cap_irrelevant : forall b1 b2 body, wf_slice b1 -> wf_slice b2 -> gdata b1 = gdata b2 ->
+  gdata (fst (encode_bytes b1 body)) = gdata (fst (encode_bytes b2 body)).
+Proof. exact AppendCorollaries.encode_bytes_cap_irrelevant. Qed.
+
+(* the backing array is replaced exactly when the spare capacity is below the encoded size len(body)+2 ... *)
+Theorem encode_bytes_realloc_iff : forall b body,
+  snd (encode_bytes b body) = true <-> (gcap b - slen b < length body + 2)%nat.
+Proof. exact AppendCorollaries.encode_bytes_realloc_iff. Qed.
+
+(* ... and the new array then has exactly the capacity of the result (the hand-written cap(b)+(n-avail) arithmetic) *)
+Theorem encode_bytes_realloc_cap : forall b body, wf_slice b -> snd (encode_bytes b body) = true ->
+  gcap (fst (encode_bytes b body)) = (slen b + length body + 2)%nat /\
+  slen (fst (encode_bytes b body)) = (slen b + length body + 2)%nat.
+Proof. exact AppendCorollaries.encode_bytes_realloc_cap. Qed.
